@@ -1,13 +1,18 @@
 """C11 — only what is missing is computed, and only what policy allows is saved.
 
-Model: lean/StraxModel/Model/Components.lean (get_components / check_cache / _add_saver / _we_take);
-theorems: Props/C11.lean; lemmas: Lemmas/Components.lean.
-Tie: (1) translator: Generated/ShouldSave.lean is regenerated from the AST of Context._target_should_be_saved
-and of the SaveWhen enum, `gen_eq_model` re-proves it equal to the model's table; the finite domain is also
-compared exhaustively; (2) differential correspondence of the real Context.get_components against the
-compiled driver on random DAGs of tiny real plugins x stored subsets prepared on disk (twin context) x
-targets / save= / modifiers / forbid_creation_of / 1-2 frontends; (3) real get_array / make runs whose
-compute-call counters and directory changes are compared with what the property wording predicts.
+Model: lean/StraxModel/Model/Components.lean (get_components / check_cache / _add_saver / _we_take / _get_plugins);
+theorems: Props/C11.lean (27: totality `getComponents_ok_iff` / `errors_iff`, partial correctness `computed_iff` …,
+combined `request_succeeds_and_is_correct`); lemmas: Lemmas/Components.lean.
+Tie: (1) translator: Generated/ShouldSave.lean is regenerated from the AST of Context._target_should_be_saved, of the
+SaveWhen enum and of two patterns in check_cache (whole `_target_should_be_saved` calls, the `"*"` test);
+`gen_eq_model` re-proves it equal to the model's table; if the source is untranslatable those two theorems are marked
+`stale` and the exhaustive differential run over the finite domain decides; (2) differential correspondence of the real
+Context.get_components against the compiled driver on random DAGs of tiny real plugins x stored subsets prepared on
+disk (twin context) x targets / save= / modifiers / forbid_creation_of / 1-2 frontends, all stored subsets of small
+DAGs, four directed cyclic graphs, malformed requests; (3) real get_array / make runs (single-thread processor, 20 %
+threaded_mailbox) whose per-plugin compute-call counters (exactly once per chunk) and directory changes are compared
+with the driver's prediction and with the property wording.  The hypotheses of the totality theorems are evaluated on
+every generated graph by the driver op `c11.topo`.
 """
 from __future__ import annotations
 
@@ -32,14 +37,16 @@ from immutabledict import immutabledict
 ID = "C11"
 LEAN_MODULES = ["StraxModel.Props.C11"]
 TRUSTED = [
-    "translator (checks/props/c11.py:regen): AST of Context._target_should_be_saved and of class SaveWhen -> Generated/ShouldSave.lean",
+    "translator (checks/props/c11.py:regen): AST of Context._target_should_be_saved, of class SaveWhen and of the two _temp_ patterns of "
+    "check_cache -> Generated/ShouldSave.lean (untranslatable source: gen_eq_model / gen_values_eq_model reported `stale`, the exhaustive "
+    "16 + 4 case differential run decides)",
     "modelled not verified: lineage hashing / DataDirectory.find reduced to three visibility lists per frontend (complete, *_temp, other-lineage); "
     "the harness prepares exactly those states on disk",
 ]
 ASSUMPTIONS = [
     "superruns, combining and chunk_number requests are outside the model (C14)",
     "fuzzy matching combined with allow_incomplete is not generated (DataDirectory raises NotImplementedError)",
-    "processor wiring of the returned components (D13) belongs to C01; real runs use the default single-thread processor",
+    "processor wiring of the returned components belongs to C01 (D13 was found there and is fixed)",
     "make(_skip_if_built=True) returns before get_iter when every target is stored: mirrored in the op line (no temporary merge plugin)",
     "ok-path theorems need no hypothesis on the graph; getComponents_ok_iff / errors_iff need topological order + unique providers, evaluated "
     "per generated graph by the driver op c11.topo (in_hypothesis); cyclic graphs: 4 directed cases (components/cyclic), not random ones",
